@@ -858,9 +858,10 @@ def run(ck, repo: Repo, rid: str = "H") -> None:
                         "on the path through that handler the read raises UnboundLocalError - the handled error turns into a traceback",
                         repo.loc(node))
         for node, name, what in empty_consequence(fn):
-            r.violation(q, f"H12 a check without consequence: {what}",
-                        "whatever the check was guarding against (a wrong type, a missing file, an unsupported option) now passes",
-                        repo.loc(node))
+            # not a violation by itself (the guard may have been for a case that cannot occur): the property's own rules decide
+            # what the missing consequence means; where none of them looks at this test the check is UNDECIDED, not silent
+            ck.defer(Exception(f"H12 a check without consequence in {q} ({repo.loc(node)}): {what} - whether what it guarded against"
+                               " can occur is not decided"))
         for node, name, what in late_binding(fn):
             r.violation(q, f"H3 late-binding closure: {what}",
                         "all closures created by the loop share the variable and see its LAST value when they are finally called", repo.loc(node))
